@@ -7,7 +7,8 @@ props = [json.loads(l) for l in open(V + "/properties.jsonl")]
 NOTE = ("trusted: Lean 4.33 kernel with axioms propext/Classical.choice/Quot.sound only (audited each run); "
         "lean/FixedMath/CSem.lean as the reading of the C++ abstract machine; the hand-written model "
         "(validated against /repo on every run by the differential correspondence harness, exhaustive on finite "
-        "theorem domains and sampled elsewhere, incl. a native soak of 19M generated operations per run and a purity run); tools/gen_consts.py; the harness; GCC/Clang as conforming compilers")
+        "theorem domains and sampled elsewhere, incl. a native soak of 19M generated operations per run and a purity run); tools/gen_consts.py; the harness; GCC/Clang as conforming compilers. "
+        "Not trusted: z3 and the LLVM-IR translator of tools/irsearch.py only propose candidate inputs where a changed entry point's IR differs from baseline_ir/; the real builds and the model driver decide")
 
 CLAIMED = {
  "C01": ("proof", "Lean theorems C01_add/C01_sub: for ALL finite pairs the model of + - += -= returns without UB the exact result or NaN. "
